@@ -402,7 +402,7 @@ func main() {
 	}
 	if R.Thorough() {
 		for _, p := range pts[1:] {
-			if len(skels) < 12 {
+			if len(skels) < 40 {
 				skels = append(skels, p.P.Compressed(), p.P.Uncompressed())
 			}
 		}
@@ -413,7 +413,11 @@ func main() {
 	}
 	if R.Thorough() {
 		// 2 deviations over the grammar alphabet on the compressed skeleton
-		mc.Subst2(ref.G().Compressed(), []byte{0x00, 0x02, 0x03, 0x04, 0xff}, func(b []byte) { dev = append(dev, b) })
+		mc.Subst2(ref.G().Compressed(), []byte{0x00, 0x01, 0x02, 0x03, 0x04, 0x06, 0x7f, 0x80, 0xfe, 0xff}, func(b []byte) { dev = append(dev, b) })
+		mc.Subst2(ref.G().Uncompressed(), []byte{0x00, 0x02, 0x03, 0x04, 0x06, 0xff}, func(b []byte) { dev = append(dev, b) })
+		if smallY.X != nil {
+			mc.Subst2(smallY.Uncompressed(), []byte{0x00, 0x01, 0x04, 0xff}, func(b []byte) { dev = append(dev, b) })
+		}
 	}
 	R.Bound("corpus_strings", len(cor))
 	R.Bound("one_deviation_strings", len(dev))
